@@ -450,6 +450,9 @@ def run(ck: Checker) -> None:
     from . import state_rules as S6
     ck.guard("R-TREE-CHAIN", lambda: S6.r_iter_once(ck, "R-TREE-CHAIN", ("pyoak.tree",)))
     ck.guard("R-TREE-FILL", lambda: S6.r_late_binding(ck, "R-TREE-FILL", ("pyoak.node", "pyoak.tree")))
+    ck.guard("R-TREE-FILL", lambda: S6.r_groupby_on_nodes(ck, "R-TREE-FILL", ("pyoak.tree", "pyoak.node")))
+    ck.guard("R-TREE-FILL", lambda: S6.r_position_not_by_content(ck, "R-TREE-FILL", [("pyoak.node", "ASTNode.dfs"), ("pyoak.node", "ASTNode.bfs"), ("pyoak.tree", "Tree.__init__")]))
+    ck.guard("R-TYPES-CACHE", lambda: S6.r_class_attr_cache(ck, "R-TYPES-CACHE", ("pyoak.node", "pyoak.types", "pyoak.typing", "pyoak.tree")))
     ck.guard("R-TREE-CHAIN", lambda: r_tree_chain(ck))
     ck.guard("R-TREE-TYPE", lambda: r_tree_type(ck))
     ck.guard("R-TREE-STATE", lambda: r_tree_state(ck))
